@@ -41,6 +41,7 @@ inline void sched_switch(Sched& S, int to, int why) {
     S.order.push_back((int)S.step); S.order.push_back(to);
     S.switch_points.insert(((unsigned long long)(unsigned)why << 8) | ((unsigned)from << 4) | (unsigned)to);
     S.cc[from].saved_errno = errno;
+    event("schedule: step %llu task %d -> task %d", S.step, from, to);
     S.cur = to; g.cur = &S.cc[to];
     swapcontext(&S.ctx[from], &S.ctx[to]);
     errno = S.cc[S.cur].saved_errno;
